@@ -112,17 +112,29 @@ def expected_steps(hist, trace):
 
 
 def canon_steps(hist, steps, trace):
-    """Replaces evaluation values by 'deployed' after checking that the value is the one of the model stored under that name."""
+    """Replaces evaluation values by 'deployed' after checking that the value is the one of the document that the history left stored under
+    that (namespace, name) at the last deploy: several alphabet documents share (namespace, name) with different decision values (A and A'),
+    so a replace that keeps serving the old document is seen."""
     out = []
     bad = None
+    stored = {}       # (ns, nm) -> index of the alphabet document stored under it, following the proved model's trace
+    deployed = {}     # the same at the last deploy
     for o, st, (mo, ms) in zip(hist, steps, trace):
+        keys = set((d['ns'], d['nm']) for d in ms['defs'])
+        if o[0] in ('add', 'replace'):
+            m = MODELS[o[1]]
+            ok = (mo.name == 'OAdd' and mo.args[0] is True) if o[0] == 'add' else ((m[0], m[1]) in keys)
+            if ok:
+                stored[(m[0], m[1])] = o[1]
+        stored = {k: v for k, v in stored.items() if k in keys}
+        if o[0] == 'deploy':
+            deployed = dict(stored)
         r = st['r']
         if isinstance(r, dict) and 'v' in r:
-            want = [MODELS[i][3] for i in range(6) if any(d['ns'] == MODELS[i][0] and d['nm'] == MODELS[i][1] for d in ms['defs']) and MODELS[i][1] == o[1]]
-            # several alphabet models may share (ns, nm) (A and A'): the stored one is decided by history; accept any of them but record the value
+            want = [MODELS[i][3] for (ns, nm), i in deployed.items() if nm == o[1]]
             got = r['v'].get('p') if isinstance(r['v'], dict) else None
-            if got is None or int(got) not in want:
-                bad = 'evaluation of m%d returned %s, stored candidates %s' % (o[1], r, want)
+            if got is None or len(want) != 1 or int(got) != want[0]:
+                bad = 'evaluation of m%d returned %s, the document stored under that name at the last deploy gives %s' % (o[1], r, want)
             r = 'deployed'
         out.append({'r': r, 's': st['s']})
     return out, bad
